@@ -1,7 +1,9 @@
-/* C12 (and C18): the default random source when getrandom() is not available - the /dev/urandom fallback with short reads and interrupted reads.
+/* C12 and C18: the default random source when getrandom() is not available - the /dev/urandom fallback with short reads and interrupted reads.
  * Environment enumeration: every script of <= 3 deviating answers of read() (1 byte, 2 bytes, half, all but one, EINTR, EAGAIN) before the request
- * is served in full, for 10 request sizes.  Oracle: exactly the requested bytes are written, in the order served, nothing outside the buffer
- * (canaries; the binary is built with ASan), and exactly n bytes are consumed.  getrandom and read are interposed at link time. */
+ * is served in full, for 10 randombytes_buf request sizes + randombytes_random() + crypto_secretbox_keygen().  Oracle: the delivered bytes are exactly
+ * the concatenation of the bytes the device served (a counter stream), in order; every output byte is overwritten (the buffer is pre-filled with the
+ * complement of the expected byte); nothing outside the buffer (canaries; C12 builds this with ASan, C18 natively); exactly n bytes are consumed.
+ * getrandom and read are interposed at link time. */
 #define _GNU_SOURCE
 #include "common.h"
 #include <sodium.h>
@@ -26,21 +28,27 @@ ssize_t __wrap_read(int fd, void *buf, size_t n)
 static unsigned long long n_eval, n_nontriv;
 int main(void)
 {
-    static const size_t NS[10] = { 1, 2, 7, 32, 100, 255, 256, 257, 1000, 5000 }; static const int ALPHA[6] = { 1, 2, 3, 4, -1, -2 };
-    unsigned ni; int len, c; unsigned char *buf = malloc(5000 + 64); char key[128];
+    static const size_t NS[12] = { 1, 2, 7, 32, 100, 255, 256, 257, 1000, 5000, 4 /* randombytes_random */, crypto_secretbox_KEYBYTES /* keygen */ };
+    static const int ALPHA[6] = { 1, 2, 3, 4, -1, -2 };
+    unsigned ni; int len, c; unsigned char *buf = malloc(5000 + 64); char key[160];
     vf_init_seed();
     if (sodium_init() < 0) return 2;
     if (strcmp(randombytes_implementation_name(), "sysrandom")) { printf("INFO default source is %s: nothing to do\n", randombytes_implementation_name()); return 0; }
     randombytes_stir();
-    for (ni = 0; ni < 10; ni++) for (len = 0; len <= 3; len++) { int total = 1, t; for (t = 0; t < len; t++) total *= 6;
+    for (ni = 0; ni < 12; ni++) for (len = 0; len <= 3; len++) { int total = 1, t; for (t = 0; t < len; t++) total *= 6;
         for (c = 0; c < total; c++) {
-            size_t n = NS[ni], i; int v = c; unsigned char first;
+            size_t n = NS[ni], i; int v = c; unsigned char first; const char *api = ni < 10 ? "randombytes_buf" : ni == 10 ? "randombytes_random" : "crypto_secretbox_keygen";
             for (t = 0; t < len; t++) { script[t] = ALPHA[v % 6]; v /= 6; }
             nscript = len; spos = 0; served = 0; first = ctr; memset(buf, 0xA5, n + 64);
-            snprintf(key, sizeof key, "sysrandom-fallback/n=%zu/read-script=%d,%d,%d(len %d)", n, len > 0 ? script[0] : 0, len > 1 ? script[1] : 0, len > 2 ? script[2] : 0, len);
-            armed = 1; randombytes_buf(buf + 32, n); armed = 0; n_eval++; n_nontriv++;
+            for (i = 0; i < n; i++) buf[32 + i] = (unsigned char) ~(first + i);      /* a byte left stale can never equal the expected one */
+            snprintf(key, sizeof key, "sysrandom-fallback/%s/n=%zu/read-script=%d,%d,%d(len %d)", api, n, len > 0 ? script[0] : 0, len > 1 ? script[1] : 0, len > 2 ? script[2] : 0, len);
+            armed = 1;
+            if (ni < 10) randombytes_buf(buf + 32, n); else if (ni == 10) { uint32_t r = randombytes_random(); memcpy(buf + 32, &r, 4); } else crypto_secretbox_keygen(buf + 32);
+            armed = 0; n_eval++; n_nontriv++;
+            if (len == 3 && c == 98) VF_SAMPLE_CASE(3, "%s: output = the served counter bytes, in order", key);
             if (served != n) vf_fail(key, "%lu bytes were read from the device for a request of %zu", served, n);
-            for (i = 0; i < n; i++) if (buf[32 + i] != (unsigned char) (first + i)) { vf_fail(key, "byte %zu of the output is not the byte the device served at that position", i); break; }
+            for (i = 0; i < n; i++) if (buf[32 + i] != (unsigned char) (first + i)) { vf_fail(key, "byte %zu of the output is %s", i,
+                buf[32 + i] == (unsigned char) ~(first + i) ? "still the caller's old memory (not overwritten)" : "not the byte the device served at that position"); break; }
             for (i = 0; i < 32; i++) if (buf[i] != 0xA5 || buf[32 + n + i] != 0xA5) { vf_fail(key, "wrote outside the requested buffer"); break; }
         } }
     vf_stat("evaluations", n_eval); vf_stat("nontrivial", n_nontriv);
